@@ -503,30 +503,40 @@ def gen_handtype(repo):
     s = load(repo, 'src/evaluator/made_hand.rs')
     # hand_type arms
     ht = block_after(s, r'pub\s+fn\s+hand_type\s*\(', 'hand_type')
-    if norm(re.search(r'\bmatch\b([^{]*)\{', ht).group(1)) != 'self.0':
-        raise ExtractError('hand_type: match is not on self.0')
+    scrut = norm(re.search(r'\bmatch\b([^{]*)\{', ht).group(1))
+    if scrut not in ('self.0', 'self.power_index()'):
+        # `let n = self.0;` (or `self.power_index()`) followed by `match n`
+        lm = re.search(r'\blet\s+(\w+)(?:\s*:\s*u16)?\s*=\s*(self\s*\.\s*0|self\s*\.\s*power_index\s*\(\s*\))\s*;', ht)
+        if not (lm and lm.group(1) == scrut and len(re.findall(r'\b%s\b' % re.escape(scrut), ht)) == 2):
+            raise ExtractError('hand_type: match is not on self.0')
     cats = enum_variants(s, 'MadeHandType')
     arms = []
     wild = None
+    num = r'(?:0x[0-9a-fA-F_]+|0b[01_]+|[0-9][0-9_]*)(?:u16)?'
     for pat, expr in match_arms(ht, 'hand_type'):
-        mm = re.fullmatch(r'MadeHandType::(\w+)', norm(expr))
+        mm = re.fullmatch(r'(?:MadeHandType|Self)::(\w+)', norm(expr))
         if not mm or mm.group(1) not in cats:
             raise ExtractError('hand_type: bad arm value %r' % expr)
         if pat == '_':
             wild = mm.group(1); continue
         if wild is not None:
             raise ExtractError('hand_type: arm after wildcard')
-        pm = re.fullmatch(r'(\d+)\.\.=(\d+)', norm(pat))
-        ph = re.fullmatch(r'(\d+)\.\.(\d+)', norm(pat))
+        pm = re.fullmatch(r'(%s)\.\.=(%s)' % (num, num), norm(pat))
+        ph = re.fullmatch(r'(%s)\.\.(%s)' % (num, num), norm(pat))
+        p1 = re.fullmatch(num, norm(pat))
         if pm:
-            arms.append((int(pm.group(1)), int(pm.group(2)), mm.group(1)))
-        elif ph and int(ph.group(2)) > 0:
+            arms.append((intlit(pm.group(1)), intlit(pm.group(2)), mm.group(1)))
+        elif ph and intlit(ph.group(2)) > 0:
             # half-open `a..b` = inclusive `a..=b-1`
-            arms.append((int(ph.group(1)), int(ph.group(2)) - 1, mm.group(1)))
-        elif re.fullmatch(r'\d+', norm(pat)):
-            arms.append((int(norm(pat)), int(norm(pat)), mm.group(1)))
+            arms.append((intlit(ph.group(1)), intlit(ph.group(2)) - 1, mm.group(1)))
+        elif p1:
+            arms.append((intlit(norm(pat)), intlit(norm(pat)), mm.group(1)))
         else:
             raise ExtractError('hand_type: unsupported pattern %r' % pat)
+    # pairwise disjoint arms mean the same in any order: list them by lower bound (first-match order is kept otherwise)
+    srt = sorted(arms)
+    if all(a[0] <= a[1] for a in srt) and all(srt[i][1] < srt[i + 1][0] for i in range(len(srt) - 1)):
+        arms = srt
     if wild is None:
         raise ExtractError('hand_type: no wildcard arm')
     ht_out = HEADER
@@ -640,9 +650,34 @@ def gen_pair(repo):
         raise ExtractError('struct CardPair(Card, Card) not found')
     derives = sorted(norm(m.group(1)).split(','))
     new = norm(block_after(s, r'pub\s+fn\s+new\s*\(\s*left', 'CardPair::new'))
-    mm = re.fullmatch(r'ifleft(>|<|>=|<=)right\{CardPair\((\w+),(\w+)\)\}else\{CardPair\((\w+),(\w+)\)\}', new)
-    if not mm:
+    new = new.replace('Self(', 'CardPair(')
+    mm = re.fullmatch(r'if(left|right)(>|<|>=|<=)(left|right)\{CardPair\((\w+),(\w+)\)\}else\{CardPair\((\w+),(\w+)\)\}', new)
+    minmax = new in ('CardPair(left.min(right),left.max(right))', 'CardPair(right.min(left),right.max(left))',
+                     'CardPair(left.min(right),right.max(left))', 'CardPair(right.min(left),left.max(right))',
+                     'CardPair(std::cmp::min(left,right),std::cmp::max(left,right))')
+    if mm and mm.group(1) != mm.group(3):
+        a, op, _, t1, t2, e1, e2 = mm.groups()
+        if a == 'right':                       # `right OP left` is `left OP' right`
+            op = {'>': '<', '<': '>', '>=': '<=', '<=': '>='}[op]
+        mm = (op, t1, t2, e1, e2)
+    elif minmax:
+        mm = ('>', 'right', 'left', 'left', 'right')    # Ord::min / Ord::max of a total order: the sorted pair
+    else:
         raise ExtractError('CardPair::new: not in the expected shape')
+    # `Card` is totally ordered (derived Ord), so what matters is the result for left < right and for left > right
+    # (for left == right both operand orders give the same pair); the sorted pair is emitted in one canonical form
+    if all(x in ('left', 'right') for x in mm[1:]):
+        holds = {'>': (False, True), '<': (True, False), '>=': (False, True), '<=': (True, False)}[mm[0]]   # (when left<right, when left>right)
+        res_lt = (mm[1], mm[2]) if holds[0] else (mm[3], mm[4])
+        res_gt = (mm[1], mm[2]) if holds[1] else (mm[3], mm[4])
+        if res_lt == ('left', 'right') and res_gt == ('right', 'left'):
+            # equal cards: either branch yields (c, c) only if both branches use both operands
+            if set((mm[1], mm[2])) == {'left', 'right'} and set((mm[3], mm[4])) == {'left', 'right'}:
+                mm = ('>', 'right', 'left', 'left', 'right')
+    class _G:
+        def __init__(self, t): self.t = t
+        def groups(self): return self.t
+    mm = _G(mm)
     idx = match_arms(block_after(s, r'impl\s+Index<usize>\s+for\s+CardPair', 'Index for CardPair'), 'CardPair index')
     idxn = [(norm(p), norm(e)) for p, e in idx]
     if idxn[:2] != [('0', '&self.0'), ('1', '&self.1')] or len(idxn) != 3 or idxn[2][0] != '_' or not idxn[2][1].startswith('panic!('):
@@ -674,10 +709,29 @@ def gen_token(repo):
     body = block_after(s, r'impl\s+FromStr\s+for\s+HandRangeToken', 'FromStr for HandRangeToken')
     lits = []
     for nm in TOKEN_REGEX_NAMES:
-        mm = re.search(r'let\s+%s\s*=\s*Regex::new\(\s*r"([^"]*)"\s*,?\s*\)\s*\.unwrap\(\)\s*;' % nm, body)
+        pre = r'let\s+%s\s*=\s*Regex::new\(\s*' % nm
+        post = r'\s*,?\s*\)\s*\.(?:unwrap\(\)|expect\(\s*"[^"]*"\s*\))\s*;'
+        mm = re.search(pre + r'r"([^"]*)"' + post, body) or re.search(pre + r'r#"(.*?)"#' + post, body, re.S)
+        if mm:
+            lits.append(mm.group(1))
+            continue
+        mm = re.search(pre + r'"((?:[^"\\]|\\.)*)"' + post, body)     # ordinary string literal: undo the escapes
         if not mm:
             raise ExtractError('regex literal %s not found' % nm)
-        lits.append(mm.group(1))
+        lit, i, raw = '', 0, mm.group(1)
+        while i < len(raw):
+            if raw[i] == '\\':
+                esc = raw[i + 1]
+                if esc in '\\"\'':
+                    lit += esc
+                elif esc in 'nrt0':
+                    lit += {'n': '\n', 'r': '\r', 't': '\t', '0': '\0'}[esc]
+                else:
+                    raise ExtractError('regex literal %s: unsupported string escape \\%s' % (nm, esc))
+                i += 2
+            else:
+                lit += raw[i]; i += 1
+        lits.append(lit)
     allre = re.findall(r'Regex::new', body)
     if len(allre) != 7:
         raise ExtractError('expected exactly 7 Regex::new in HandRangeToken::from_str')
@@ -688,23 +742,40 @@ def gen_token(repo):
     out = HEADER
     out += '/-- the seven regex literals of `HandRangeToken::from_str`, in source order -/\n'
     out += 'def tokenRegexSrc : List String := [\n  ' + ',\n  '.join(lean_str(l) for l in lits) + ']\n'
+    out += '/-- the same literals as lists of Unicode code points (what `Rx.parse` reads) -/\n'
+    out += 'def tokenRegexCodes : List (List Nat) := [\n  ' + ',\n  '.join('[' + ', '.join(str(ord(ch)) for ch in l) + ']' for l in lits) + ']\n'
     return out + FOOTER, {'tokenFromStr': hashlib.sha256(tail.encode()).hexdigest(),
                           'parseProbability': hashlib.sha256(pp.encode()).hexdigest()}
 
 
 def gen_iter(repo):
     s = load(repo, 'src/evaluator/flop_exhaustive.rs')
+    # named integer constants (`const LAST: usize = 48;`) mean their literal: substitute them before reading shapes
+    for cm in re.finditer(r'\bconst\s+([A-Z_][A-Z0-9_]*)\s*:\s*(?:u8|u16|u32|u64|usize)\s*=\s*([0-9][0-9_]*)(?:u8|u16|u32|u64|usize)?\s*;', s):
+        s = re.sub(r'\b(?:Self::)?%s\b(?!\s*:)' % cm.group(1), cm.group(2).replace('_', ''), s)
     new = norm(block_after(s, r'pub\s+fn\s+new\s*\(\s*board', 'FlopExhaustiveEvaluator::new'))
-    mm = re.fullmatch(r'Self\{board:board\.clone\(\),players:players\.clone\(\),turn_from:(\d+),river_from:(\d+),turn_to:(\d+),river_to:(\d+),\}', new)
+    mm = re.fullmatch(r'(?:Self|FlopExhaustiveEvaluator)\{(.*?),?\}', new)
     if not mm:
         raise ExtractError('FlopExhaustiveEvaluator::new: not in the expected shape')
-    tf, rf, tt, rt = map(int, mm.groups())
+    fields = {}
+    for fld in split_top(mm.group(1)):
+        if fld:
+            k, _, v = fld.partition(':')
+            fields[k] = v
+    if set(fields) != {'board', 'players', 'turn_from', 'river_from', 'turn_to', 'river_to'} \
+            or fields['board'] not in ('board.clone()', '*board', 'board.to_owned()') \
+            or fields['players'] not in ('players.clone()', 'players.to_vec()', 'players.to_owned()'):
+        raise ExtractError('FlopExhaustiveEvaluator::new: not in the expected shape')
+    try:
+        tf, rf, tt, rt = (intlit(fields[k]) for k in ('turn_from', 'river_from', 'turn_to', 'river_to'))
+    except ExtractError:
+        raise ExtractError('FlopExhaustiveEvaluator::new: default scope is not four integer literals')
     nxt = block_after(s, r'fn\s+next\s*\(\s*&mut\s+self\s*\)', 'Iterator::next')
     n = norm(nxt)
-    mm = re.search(r'ifself\.current_river_index<(\d+)\{', n)
+    mm = re.search(r'ifself\.current_river_index<(=?)(\d+)\{', n)
     if not mm:
         raise ExtractError('next: river rollover literal not found')
-    roll = int(mm.group(1))
+    roll = int(mm.group(2)) + (1 if mm.group(1) else 0)      # `<= k` is `< k+1`
     mm = re.search(r'current_deck:\[Card;(\d+)\]', norm(s))
     if not mm:
         raise ExtractError('deck size not found')
